@@ -144,12 +144,14 @@ def run_R(ck: Check):
     ck.assume('origination, delegation, register_global_constant, activate_account: tag and field order from the protocol '
               'documentation (no recorded artefact offline); every field codec is shared with the validated kinds')
     thorough = ck.thorough()
-    ck.bound('contents_per_group', '1..3')
+    ck.bound('contents_per_group', '1..3 exhaustively over representatives; 4, 5, 8, every-kind (~22) and 64 as samples')
     ck.bound('numeric_boundaries', [str(n) for n in E.NUMS])
     ck.bound('entrypoints', f'{len(E.RESERVED)} reserved, named lengths 1..31 ({len(E.NAMED)} names)')
     ck.rule('R: every single content of the enumeration (each source kind, each destination kind, each numeric field at each '
             'LEB128 boundary up to 2^70, each reserved and named entrypoint x parameter values, each kind-specific field), all '
-            'ordered pairs and triples of representatives of every kind; class = (number of contents, kinds, varied field)')
+            'ordered pairs and triples of representatives of every kind; class = (number of contents, kinds, varied field); '
+            'optional fields also in their absent-by-value forms (delegate \'\'/None, parameters None/{}), numeric fields also as '
+            'Python ints, naturals up to 2^256, larger batches (4..64 contents, repeated content objects)')
 
     seen = {}
 
